@@ -953,7 +953,13 @@ pub fn judge_under_faults(plan: &ClientPlan, run: &ClientRun) -> Judged {
                 // that the terminal closed cleanly *between* two exchanges (nothing half-done anywhere),
                 // the client reconnects and the clean-up still runs to its end: end-of-day reaches the terminal
                 {
-                    let fired_here: Vec<FaultKind> = all_fired.iter().filter(|f| o.log_from <= f.seq && f.seq < o.log_to).map(|f| f.kind).collect();
+                    // (a negative acknowledgement of a command - "busy, not now" - leaves nothing half-done
+                    // either: the command was not executed; it counts like the clean close)
+                    let fired_here: Vec<FaultKind> = all_fired
+                        .iter()
+                        .filter(|f| o.log_from <= f.seq && f.seq < o.log_to)
+                        .map(|f| if matches!(f.kind, FaultKind::Nack(_)) && f.at_ack && !matches!(f.during, (0x06, 0x00) | (0x0f, 0xa1)) { FaultKind::CloseIdle } else { f.kind })
+                        .collect();
                     let cleanup = match op {
                         OpSpec::Commit { cleanup, .. } | OpSpec::Cancel { cleanup, .. } => cleanup,
                         _ => unreachable!(),
@@ -968,7 +974,7 @@ pub fn judge_under_faults(plan: &ClientPlan, run: &ClientRun) -> Judged {
                     {
                         j.stats.hit("probe.cleanup_after_idle_close");
                         if !reqs.iter().any(|r| r.pkt.as_ref().map(|p| p.cf == (0x06, 0x50)).unwrap_or(false)) {
-                            j.fail("C19", "cleanup_not_completed", name, format!("{name}({token:?}) was completed by the terminal and left nothing open; the connection was merely closed between two exchanges, yet no end-of-day request reached the terminal (requests of this call: {:?})", pk.iter().map(|p| p.cf).collect::<Vec<_>>()));
+                            j.fail("C19", "cleanup_not_completed", name, format!("{name}({token:?}) was completed by the terminal and left nothing open; the only trouble was a connection closed between two exchanges / a command refused once with a negative acknowledgement, yet no end-of-day request reached the terminal (requests of this call: {:?})", pk.iter().map(|p| p.cf).collect::<Vec<_>>()));
                         }
                     }
                 }
